@@ -38,7 +38,11 @@ ORDER = ["PUSH1 0x3 POP PUSH1 0x0 MLOAD PUSH1 0x1 PUSH1 0x0 MSTORE", "PUSH1 0x3 
          "MSTORE8 MLOAD MLOAD", "SSTORE SLOAD DUP1 SLOAD ADD"]
 # a value without operands that is needed at two depths: recomputing it late is cheaper than keeping a copy, so the optimum needs the
 # instruction at a late position (tight upper position bounds remove it)
-LATE = ["CALLVALUE DUP1 ISZERO SWAP1", "ADDRESS DUP1 NOT SWAP1", "CALLER DUP1 DUP3 ADD SWAP1", "CALLVALUE DUP1 DUP3 SSTORE", "CODESIZE DUP1 DUP1 MLOAD SWAP1"]
+LATE = ["CALLVALUE DUP1 ISZERO SWAP1", "ADDRESS DUP1 NOT SWAP1", "CALLER DUP1 DUP3 ADD SWAP1", "CALLVALUE DUP1 DUP3 SSTORE", "CODESIZE DUP1 DUP1 MLOAD SWAP1",
+        # an operation with three operands whose third one is produced just before and tucked under the other two with one SWAP2: the producer
+        # sits two positions before its consumer, tight against the length bound
+        "POP ISZERO SWAP2 ADDMOD", "ISZERO SWAP2 ADDMOD", "ISZERO SWAP2 MULMOD", "CALLER SWAP2 MULMOD", "DUP3 ADD SWAP2 MULMOD SWAP1", "POP NOT SWAP2 MULMOD",
+        "CALLVALUE SWAP2 ADDMOD SWAP1"]
 STRUCTURAL = [[], ["-empty"], ["-pop-uninterpreted"], ["-empty", "-pop-uninterpreted"], ["-push-basic", "-term-encoding", "int"],
               ["-empty", "-term-encoding", "int"], ["-memory-encoding", "l_vars"], ["-empty", "-term-encoding", "stack_vars"]]
 
